@@ -47,8 +47,8 @@ PROPS = {
     'C02': dict(level='exploration', budget={'quick': Q, 'thorough': T}, groups=A(),
                 rule='as C01, queries are the absent-key families (below first, gap midpoints, after duplicate runs, around chunk seams, above last, max-1, 2^k-far) plus present keys',
                 assumptions=COMMON_ASSUME + ['floating keys restricted to the exact dyadic tier (DESIGN.md 4.1)']),
-    'C07': dict(level='exploration', budget={'quick': Q, 'thorough': T}, groups=A((10, 4, 2)),
-                rule='as C01 with EpsilonRecursive > 0; every query is observed through hook H2 (per-level window and chosen segment)',
+    'C07': dict(level='exploration', budget={'quick': Q, 'thorough': T}, groups=A((10, 3, 2)) + [{'engine': 'filesim', 'flavour': 'plain', 'weight': 1}],
+                rule='as C01 with EpsilonRecursive > 0; every query is observed through hook H2 (per-level window and chosen segment); the same oracle is applied to MappedPGMIndex objects that were created, and re-opened from their file, under the histories of engine C',
                 assumptions=COMMON_ASSUME),
     'C03': dict(level='exploration', budget={'quick': Q, 'thorough': T}, groups=A((9, 4, 3)),
                 rule='one case = (key type, run-time epsilon 0..1024, sorted key sequence, sequential or chunked builder under a simulated machine/team/schedule); '
